@@ -47,7 +47,12 @@ pub fn run_parse<T: SwiftField + 'static>(content: &str) -> Outcome {
         Ok(v) => {
             let ser = v.to_swift_string();
             let j = serde_json::to_value(&v).unwrap_or(Value::Null);
-            let back: Option<Value> = serde_json::from_value::<T>(j.clone()).ok().map(|v2| serde_json::to_value(&v2).unwrap_or(Value::Null));
+            // the value read back from JSON, as JSON again; when the typed value itself differs (Debug form: a date's
+            // century, say, which the JSON string does not show) the difference is put into the JSON under "#typed"
+            let back: Option<Value> = serde_json::from_value::<T>(j.clone()).ok().map(|v2| {
+                let j2 = serde_json::to_value(&v2).unwrap_or(Value::Null);
+                if j2 == j && format!("{v2:?}") != format!("{v:?}") { serde_json::json!({"#typed": format!("{v2:?}"), "#was": format!("{v:?}")}) } else { j2 }
+            });
             Some((ser, j, back))
         }
         Err(_) => None,
